@@ -1,5 +1,10 @@
-"""C08 implementation driver: builds a rule program with the real `with`-blocks through krrood's public API
-(`an`, `entity`, `let`, `inference`, `Add`, `refinement`, `alternative`, `next_rule`) and evaluates it.
+"""C08 -- rule trees follow except-if / else-if / also-if semantics.
+
+Tie: correspondence.  A rule program is built with the real `with`-blocks through krrood's public API
+(`an`, `entity`, `let`, `inference`, `Add`, `refinement`, `alternative`, `next_rule`) and evaluated in worker subprocesses;
+the same program is run through the Coq model (Eql/RuleBuild.v heap surgery + Eql/RuleEval.v selector evaluation, `model_sx`)
+and the Spec (Eql/RuleSpec.v `rdr`, `spec_sx`) by vm_compute; `fragW_sx` says whether it lies in the proved fragment Fb.
+Decision: impl != spec inside Fb -> VIOLATION; outside Fb it is an instance of a listed finding only if impl = model.
 
 Case (JSON):  {"world": [[a, b], ...], "prog": RULE}
 RULE        :  {"conds": [ATOM, ...] (>= 1), "tag": int | None, "body": [[KIND, RULE], ...]}   KIND in "R" "A" "N"
@@ -7,7 +12,7 @@ ATOM        :  [attr, op, rk, rv]   meaning  x.<attr> <op> (rv if rk == 0 else x
                attr in 0 (a) / 1 (b); op in 0 '==', 1 '!=', 2 '<', 3 '<=', 4 '>', 5 '>='
 Outcome     :  [0, sorted [[tag, index of the element the instance was built from], ...], rows of instance OBJECTS that were
                 returned a second time]  |  [1, exception code]
-Run as a worker:  python -m harness.c08_impl   (reads a JSON list of cases on stdin, writes a JSON list of outcomes)."""
+Run as a worker:  python -m harness.c08   (reads a JSON list of cases on stdin, writes a JSON list of outcomes)."""
 from __future__ import annotations
 
 import json
